@@ -483,7 +483,12 @@ pub fn content_spaces(tier: vcore::Tier) -> Vec<ContentSpace> {
 					],
 				},
 				MethodU { name: "b".into(), desc: "(I)V".into(), rows: one(rows(n, &["mb", "mb", "mb"])), docs: gen::docs(&[None]), params: vec![] },
-				MethodU { name: "a".into(), desc: "(I)V".into(), rows: one(rows(n, &["ma", "λ", "y"])), docs: gen::docs(&[None]), params: vec![] },
+				// the method that is written first of its class (smallest descriptor) may have a parameter too, so that
+				// every placement of methods with and without parameters occurs: with - without, without - with, …
+				MethodU {
+					name: "a".into(), desc: "(I)V".into(), rows: one(rows(n, &["ma", "λ", "y"])), docs: gen::docs(&[None]),
+					params: vec![ParamU { index: 1, rows: prow(Some("s1"), pick(rows(n, &["q", "r", "s"]), &[one_idx])), docs: if rich { gen::docs(&[None, Some("first")]) } else { gen::docs(&[None]) } }],
+				},
 			],
 			optional: true,
 		};
